@@ -81,6 +81,30 @@ def run(ctx):
             idx2 = st.jw_sz_indices(sz2 / 2.0, n, ne2)
             add('jw_sz_restrict_operator', '(restricted_matrix_ok %s %s %s %s)' % (cnat(n), cNl(idx2), coq_fop(op), cmat(np.asarray(R2.todense()).tolist())),
                 {'call': 'jw_sz_restrict_operator', 'n_qubits': n, 'sz': sz2 / 2.0, 'n_electrons': ne2, 'terms': {repr(t): repr(c) for t, c in op.terms.items()}}, key=(n, sz2, ne2, repr(op.terms)))
+    # ---- custom spin-orbital conventions (up_index / down_index arguments): indices, restricted operator and state
+    convs = {'up_then_down': (lambda m: (lambda i: i), lambda m: (lambda i: i + m)), 'odd_up': (lambda m: (lambda i: 2 * i + 1), lambda m: (lambda i: 2 * i)),
+             'down_then_up': (lambda m: (lambda i: i + m), lambda m: (lambda i: i))}
+    for _ in range(N(30, 200)):
+        n = rng.choice([2, 4]) if ctx.quick else rng.choice([2, 4, 6]); m = n // 2
+        cname = rng.choice(sorted(convs)); upf, dnf = convs[cname][0](m), convs[cname][1](m)
+        sz2 = rng.randint(-m, m); ne2 = rng.choice([None] + [e for e in range(n + 1) if (e + sz2) % 2 == 0 and e >= abs(sz2)])
+        def occ_of(k): return [(k >> (n - 1 - j)) & 1 for j in range(n)]          # mode j on bit n-1-j (get_sparse_operator convention)
+        want = [k for k in range(2 ** n) if sum(occ_of(k)[upf(i)] for i in range(m)) - sum(occ_of(k)[dnf(i)] for i in range(m)) == sz2 and (ne2 is None or sum(occ_of(k)) == ne2)]
+        rp = {'call': 'jw_sz_* with custom up_index/down_index', 'convention': cname, 'n_qubits': n, 'sz': sz2 / 2.0, 'n_electrons': ne2}
+        got = list(st.jw_sz_indices(sz2 / 2.0, n, ne2, up_index=upf, down_index=dnf))
+        ctx.count('jw_sz_custom_convention', 1, nontrivial_key=(cname, n, sz2, ne2))
+        if sorted(got) != want:
+            ctx.violation('C10 jw_sz_indices(custom convention) does not enumerate the S_z sector exactly once', dict(rp, got=got, want=want)); continue
+        op = rand_nc_op(of, rng, n)
+        full = of.get_sparse_operator(op, n)
+        R2 = st.jw_sz_restrict_operator(full, sz2 / 2.0, ne2, n, up_index=upf, down_index=dnf)
+        Fd = np.asarray(full.todense())
+        if R2.shape != (len(got), len(got)) or not np.array_equal(np.asarray(R2.todense()), Fd[np.ix_(got, got)]):
+            ctx.violation('C10 jw_sz_restrict_operator(custom convention) is not the projection onto the S_z sector', dict(rp, terms=repr(op.terms)))
+        vec = np.array([complex(dy(rng), dy(rng)) for _ in range(2 ** n)])
+        rs = st.jw_sz_restrict_state(vec, sz2 / 2.0, ne2, n, up_index=upf, down_index=dnf)
+        if not np.array_equal(np.asarray(rs), vec[got]):
+            ctx.violation('C10 jw_sz_restrict_state(custom convention) does not select the sector amplitudes', rp)
     # ---- expectation_computational_basis_state: lists and sparse vectors, all basis states of n qubits
     for _ in range(N(30, 200)):
         n = rng.choice([2, 3, 4])
